@@ -150,7 +150,13 @@ def exact_opt(tl, objective, maximize):
         return ("unbounded",)
     if "epsilon" in s:
         return ("unknown",)
-    return ("opt", v.as_fraction())
+    import z3 as _z3
+
+    if _z3.is_int_value(v):
+        return ("opt", Fraction(v.as_long()))
+    if _z3.is_rational_value(v):
+        return ("opt", v.as_fraction())
+    return ("unknown",)
 
 
 def feasible_exact(tl):
